@@ -1,0 +1,34 @@
+//! Access for external verification tooling (feature `verif-hooks`, off by default).
+//!
+//! Exposes the allocator of connection ids, which is otherwise private to the crate, so that it can be driven
+//! directly with arbitrary histories of acquiring and releasing ids.
+
+use crate::conn_id::{ConnectionId, ConnectionIdManager};
+
+/// The broker's allocator of connection ids.
+#[derive(Debug, Clone)]
+pub struct ConnectionIds(ConnectionIdManager);
+
+impl ConnectionIds {
+    /// A fresh allocator, as a new broker has it.
+    #[allow(clippy::new_without_default)]
+    pub fn new() -> Self {
+        Self(ConnectionIdManager::new())
+    }
+
+    /// Acquires an id the way `BrokerHandle::connect` does; it is released when the last clone is dropped.
+    pub fn acquire(&self) -> HeldConnectionId {
+        HeldConnectionId(self.0.acquire())
+    }
+}
+
+/// A connection id that is in use.
+#[derive(Debug, Clone, PartialEq, Eq, Hash)]
+pub struct HeldConnectionId(ConnectionId);
+
+impl HeldConnectionId {
+    /// The number behind the id.
+    pub fn number(&self) -> usize {
+        self.0.number()
+    }
+}
